@@ -26,6 +26,12 @@ from vf.cli import WorkerResult
 from vf.oracles import rtf
 from vf.props import c03
 
+
+def _gt(a, b):
+    """a > b that is also True when a is NaN (a silent NaN must never pass a tolerance test)."""
+    return ~(np.asarray(a) <= np.asarray(b))
+
+
 LEVEL = "exploration"
 RULE = (
     "product (1D rule, n) x transform class x parameter alphabet; one evaluation = one node "
@@ -257,7 +263,7 @@ def _case(arg):
         if tuple(rule.domain) == (-1, 1) or name in PM1_TF and not inv:
             cond = 16 * np.finfo(float).eps / max(1.0 - abs(x[i]), 1e-300) if abs(x[i]) < 1 else 0.0
         rt = RTOL + cond
-        if abs(np_pts[i] - r0) > rt * (abs(r0) + 1e-3):
+        if _gt(abs(np_pts[i] - r0), rt * (abs(r0) + 1e-3)):
             res.violation(f"{tag}:points-not-mapped-nodes",
                           f"{tag}: node x={x[i]:.6g} of {rule_name}({n}) became {np_pts[i]:.12g}, the map gives {r0:.12g}", case)
         ew = w[i] * abs(r1)
@@ -339,7 +345,7 @@ def _gl_exactness(ctx):
                 got = float(np.sum(g.weights * g.points**k))
                 scale = float(np.sum(np.abs(g.weights) * np.abs(g.points) ** k))
                 ctx.nontrivial(("gl", n, str(a), str(b), k), section="gl-exactness")
-                if abs(got - ref) > 1e-13 * scale * (k + 4):
+                if _gt(abs(got - ref), 1e-13 * scale * (k + 4)):
                     ctx.violation("gl-linear:exactness-not-transported",
                                   f"GaussLegendre({n}) mapped to [{a},{b}] integrates x^{k} to {got}, exact {ref}",
                                   {"route": "gl", "n": n, "a": float(a), "b": float(b), "k": k})
